@@ -247,7 +247,12 @@ func runC19(e *Env) {
 				nByName++
 				add(got == want, "E4.const", t+"/value/"+gn, p.Pos(c.Pos()), fmt.Sprintf("%#x = %s", got, un), fmt.Sprintf("%s = %#x under %s but %s = %#x", gn, got, t, un, want))
 			}
-			add(nInit+nByName >= 15, "E4.const", t+"/init/count", "", fmt.Sprintf("%d root constants initialised from internal/unix, %d compared with the kernel's value by name", nInit, nByName), fmt.Sprintf("only %d root constants are tied to internal/unix or to the kernel's values", nInit+nByName))
+			// vacuity guard; the three helper constants that only the Linux loader uses may live in a Linux-only file
+			minTied := 15
+			if !isLinux {
+				minTied = 12
+			}
+			add(nInit+nByName >= minTied, "E4.const", t+"/init/count", "", fmt.Sprintf("%d root constants initialised from internal/unix, %d compared with the kernel's value by name", nInit, nByName), fmt.Sprintf("only %d root constants are tied to internal/unix or to the kernel's values", nInit+nByName))
 
 			// stubs
 			if !isLinux {
